@@ -64,6 +64,7 @@ var impls = map[string]func(string) string{
 	"sftp.has":        implSftpHas,
 	"mfs.index":       implMfsIndex,
 	"mfs.sparse":      implMfsSparse,
+	"cmdflow.run":     implCmdflowRun,
 }
 
 type replayFile struct {
